@@ -33,7 +33,15 @@ fn main() {
         std::process::exit(2);
     };
     let mut src = ReplaySrc::new(vals);
-    panic::set_hook(Box::new(|_| {}));
+    // remember where a panic came from: a panic raised inside this harness crate is a harness bug, not a finding
+    static LOC: std::sync::Mutex<String> = std::sync::Mutex::new(String::new());
+    panic::set_hook(Box::new(|info| {
+        if let Some(l) = info.location() {
+            if let Ok(mut g) = LOC.lock() {
+                *g = format!("{}:{}", l.file(), l.line());
+            }
+        }
+    }));
     let r = panic::catch_unwind(panic::AssertUnwindSafe(|| f(&mut src)));
     match r {
         Ok(()) => {
@@ -50,14 +58,14 @@ fn main() {
                     println!("REPRODUCED label={}", src.failed.unwrap_or("?"));
                     std::process::exit(1);
                 }
-                println!("PANIC msg={}", m.replace('\n', " "));
+                println!("PANIC loc={} msg={}", LOC.lock().map(|g| g.clone()).unwrap_or_default(), m.replace('\n', " "));
                 std::process::exit(1);
             }
             if let Some(m) = p.downcast_ref::<String>() {
-                println!("PANIC msg={}", m.replace('\n', " "));
+                println!("PANIC loc={} msg={}", LOC.lock().map(|g| g.clone()).unwrap_or_default(), m.replace('\n', " "));
                 std::process::exit(1);
             }
-            println!("PANIC msg=<non-string payload>");
+            println!("PANIC loc={} msg=<non-string payload>", LOC.lock().map(|g| g.clone()).unwrap_or_default());
             std::process::exit(1);
         }
     }
